@@ -48,8 +48,49 @@ class Item:
     clause: str = ""
 
 
+# Every single evaluation of a monitor must RETURN: a real function that does not come back is a failure of the contract "returns
+# normally", not something to wait for.  The limit is generous (typical evaluations take milliseconds to a few seconds; the limit is
+# 300 s per single input, VERIF_INPUT_TIMEOUT overrides it) so that a loaded machine cannot trip it; after 3 such failures in one run
+# the remaining inputs of the suite are skipped (recorded, not counted as evaluated) so that the check itself terminates.
+INPUT_TIMEOUT_S = int(os.environ.get("VERIF_INPUT_TIMEOUT", "300"))
+_TIMEOUTS = mp.Value("i", 0)
+SKIPPED = "__SKIPPED_AFTER_REPEATED_TIMEOUTS__"
+
+
+class _InputTimeout(BaseException):
+    pass
+
+
+def _alarm(signum, frame):
+    raise _InputTimeout()
+
+
 def _call(args):
+    import signal
+
     fn, inp = args
+    if _TIMEOUTS.value >= 3:
+        return SKIPPED
+    use_alarm = False
+    try:
+        signal.signal(signal.SIGALRM, _alarm)
+        signal.alarm(INPUT_TIMEOUT_S)
+        use_alarm = True
+    except Exception:  # noqa: BLE001  (not in a main thread: no limit)
+        pass
+    try:
+        return _call_inner(fn, inp)
+    except _InputTimeout:
+        with _TIMEOUTS.get_lock():
+            _TIMEOUTS.value += 1
+        return (f"TIMEOUT: no result within {INPUT_TIMEOUT_S} s of wall-clock time for this single input (the monitored call did not "
+                f"return; on the unchanged tree evaluations of this item take seconds at most)")
+    finally:
+        if use_alarm:
+            signal.alarm(0)
+
+
+def _call_inner(fn, inp):
     try:
         r = fn(inp)
         if r is None or r is True:
@@ -88,6 +129,9 @@ class Suite:
 
     # -- running ----------------------------------------------------------------------
     def _record(self, it: Item, inp, res, nontrivial=True):
+        if res == SKIPPED:
+            it.skipped = getattr(it, "skipped", 0) + 1
+            return
         it.evaluations += 1
         if nontrivial:
             it.nontrivial_keys.add(hashlib.sha1(jkey(inp).encode()).hexdigest()[:16])
@@ -150,6 +194,7 @@ class Suite:
                     "evaluations": it.evaluations,
                     "distinct_nontrivial": len(it.nontrivial_keys),
                     "failures": len(it.failures) + it.errors,
+                    "skipped_after_repeated_timeouts": getattr(it, "skipped", 0),
                     "wall_s": round(it.wall_s, 2),
                 }
             )
